@@ -67,6 +67,30 @@ class StoreObj:
                         fields[k_] = v_
         except Unsupported as u:
             self.init_unsupported = str(u)
+        # a field the contract does not know about and that some method other than __init__ assigns (a cache, a counter ...) holds, in
+        # a well-formed object reached by an arbitrary history, whatever those methods left there: it gets an ARBITRARY value, not the
+        # constructor's (no invariant is declared for it).  A refutation that depends on it is a candidate only (the value may be
+        # unreachable): it needs a failing real operation sequence (bounded tier) to count.
+        self.havoc_fields = []
+        try:
+            import ast as _ast
+            cls = eng.world.module(MOD).classes['MemoryStore']
+            assigned = set()
+            for fn_ in cls.body:
+                if isinstance(fn_, _ast.FunctionDef) and fn_.name != '__init__':
+                    for n_ in _ast.walk(fn_):
+                        tg = []
+                        if isinstance(n_, _ast.Assign): tg = n_.targets
+                        elif isinstance(n_, (_ast.AugAssign, _ast.AnnAssign)): tg = [n_.target]
+                        for t_ in tg:
+                            for a_ in _ast.walk(t_):
+                                if isinstance(a_, _ast.Attribute) and isinstance(a_.value, _ast.Name) and a_.value.id == 'self' and isinstance(a_.ctx, _ast.Store):
+                                    assigned.add(a_.attr)
+            known = {'state', 'values', 'keys', 'is_mapper', 'default_value', 'data_type', 'next_index', 'free_slots'}
+            for k_ in sorted(assigned - known):
+                fields[k_] = SVal(Const(f'field_{k_}', Val)); self.havoc_fields.append(k_)
+        except Exception as ex:
+            self.havoc_error = f'{type(ex).__name__}: {ex}'
         self.ref = eng.new_obj(p, 'obj', ('obj', fields, (MOD, 'MemoryStore')))
 
     def S(self, j): return V.i(Select(self.state_a, j))
@@ -107,6 +131,13 @@ def key_sv():
 K0 = Key.h(Const('key', Key))
 
 
+def _store_e2e():
+    """failing real operation sequence on MemoryStore, if the scripted / random sequences of the bounded tier find one"""
+    from ..bounded.mux import check_c14
+    r = check_c14({'tier': 'quick'})
+    return (r.get('failures') or [None])[0]
+
+
 class MethodCase(FnCase):
     def __init__(self, method, dtype, kind, code, with_default):
         self.method = method; self.dtype = dtype; self.kind = kind; self.code = code; self.with_default = with_default
@@ -130,6 +161,11 @@ class MethodCase(FnCase):
     def setup(self, eng, p):
         self.eng = eng
         self.o = StoreObj(eng, p, self.dtype, self.kind, self.code, self.with_default)
+        if self.o.havoc_fields:
+            # refutations may depend on an unreachable value of a field the contract knows nothing about: they count only with a failing
+            # real operation sequence (native replay from the constructor's field values, or the operation scripts of the bounded tier)
+            self.internal_representation = True
+            self.e2e = _store_e2e
         self.value = Const('value', Val)
         m = eng.world.class_method((MOD, 'MemoryStore'), self.method)
         args = [self.o.ref, key_sv()]
@@ -304,6 +340,8 @@ class MapCase(FnCase):
     def setup(self, eng, p):
         self.eng = eng
         self.o = StoreObj(eng, p, 'mapper', 'dict', None, False)
+        if self.o.havoc_fields:
+            self.internal_representation = True; self.e2e = _store_e2e
         self.mk = Const('map_key', Val)
         self.in_use = Array('in_use', IntSort(), BoolSort())
         m = eng.world.class_method((MOD, 'MemoryStore'), self.method)
@@ -443,6 +481,8 @@ class IterateCase(FnCase):
     def setup(self, eng, p):
         self.eng = eng
         self.o = StoreObj(eng, p, self.dtype, self.kind, self.code, False)
+        if self.o.havoc_fields:
+            self.internal_representation = True; self.e2e = _store_e2e
         return eng.world.class_method((MOD, 'MemoryStore'), 'iterate'), [self.o.ref], {}
 
     def requires(self):
